@@ -586,3 +586,9 @@ V('C20-rule-axiom-not-declared', 'C20', [(_EPG, "        self.add_axiom(rule.pat
 V('C20-hint-not-yielded', 'C20', [(_RS, "                yield hint\n", "                pass\n")], names='hint-chains-configurations')
 V('C20-hint-configurations-exchanged', 'C20', [(_RS, "RewriteStepExpression(pre_config, post_config, axiom, substitutions)", "RewriteStepExpression(post_config, pre_config, axiom, substitutions)")], names='hint-chains-configurations')
 V('C20-rewrite-sides-exchanged-in-conversion', 'C20', [(_LS, "return kl.kore_rewrites(rewrite_sort_pattern, left_rw_pattern, right_rw_pattern)", "return kl.kore_rewrites(rewrite_sort_pattern, right_rw_pattern, left_rw_pattern)")], names='conversion-order')
+
+# C19: n-ary application (sweep rules), on the unrefactored tree
+_KORE = PG + 'proofs/kore.py'
+V('C19-nary-app-ignores-first-argument', 'C19', [(_KORE, "    for i in range(0, n):\n        p = App(p, MetaVar(i))", "    for i in range(1, n):\n        p = App(p, MetaVar(i))")], names='format-covers-deps')
+V('C19-nary-app-right-nested', 'C19', [(_KORE, "        p = App(p, MetaVar(i))", "        p = App(MetaVar(i), p)")], names='nary-application')
+V('C19-nary-reader-reverses-arguments', 'C19', [(_KORE, "            return symbol, (*args, r)", "            return symbol, (r, *args)")], names='nary-application')
